@@ -142,6 +142,7 @@ func search(t *testing.T) {
 	sum := &Summary{Prop: *fProp, Worker: *fWorker, Probes: map[string]int{}, Faults: map[string]int{}, Strategies: map[string]int{}, TaskKinds: map[string]int{}}
 	seenSig := map[string]int{}
 	var hashes []uint64
+	var swsigs []uint64
 	for idx := *fFrom; idx < *fTo; idx += *fStride {
 		if *fBudget > 0 && time.Since(start).Seconds() > *fBudget {
 			sum.CutShort = true
@@ -165,6 +166,9 @@ func search(t *testing.T) {
 		}
 		for k, v := range res.Faults {
 			sum.Faults[k] += v
+		}
+		if res.Switches > 1 {
+			swsigs = append(swsigs, res.SwitchSig)
 		}
 		if nonTrivial(res) {
 			sum.NonTrivial++
@@ -206,6 +210,11 @@ func search(t *testing.T) {
 		binary.LittleEndian.PutUint64(hb[8*i:], h)
 	}
 	os.WriteFile(filepath.Join(*fOut, fmt.Sprintf("hashes-%s-w%d.bin", *fProp, *fWorker)), hb, 0o644)
+	sb := make([]byte, 8*len(swsigs))
+	for i, h := range swsigs {
+		binary.LittleEndian.PutUint64(sb[8*i:], h)
+	}
+	os.WriteFile(filepath.Join(*fOut, fmt.Sprintf("switches-%s-w%d.bin", *fProp, *fWorker)), sb, 0o644)
 }
 
 // ReplayOut is printed by replay mode.
